@@ -315,7 +315,19 @@ func runHistory(base string, h History, withFresh bool) runResult {
 			if ferr := f.Update(); ferr != nil {
 				panic(ferr)
 			}
-			if k, what := oracle(step, o, f.ReadDisk()); k != "" {
+			k, what := oracle(step, o, f.ReadDisk())
+			if k == "" {
+				// the server lines of every loaded backend are those of the in-memory model
+				model := e.ModelServers()
+				for _, fo := range o.Disk.Files {
+					for _, b := range fo.Backends {
+						if fmt.Sprint(b.Servers) != fmt.Sprint(model[b.Name]) {
+							k, what = "stale-server-slots", fmt.Sprintf("backend %s in %s has servers %v, the model has %v", b.Name, fo.File, b.Servers, model[b.Name])
+						}
+					}
+				}
+			}
+			if k != "" {
 				where := fmt.Sprintf("step %d (%s)", i, map[bool]string{true: "full sync", false: "partial sync"}[step.Full])
 				if failedBefore != "" {
 					k += "-after-failed-update"
